@@ -146,6 +146,9 @@ theorem split_flow_links (m : MFA) (cfg : SankeyCfg) (f : FlowM) (dimKey : Strin
     simp only [h1, if_false, Option.bind_none] at h
     cases h
 
+/-- unless told otherwise the plotter leaves out exactly the system environment -/
+theorem source_default_exclusion : Gen.sankeyDefaultExclude = [Gen.sysenvName] := by decide
+
 /-! ## array plotters -/
 
 /-- **a one-dimensional array gives one line**: x the items of the dimension, y the entries in item order -/
